@@ -1,6 +1,7 @@
 """C04 — sniproxy: loss or shutdown of an endpoint never strands a caller (DESIGN.md §7 C04)."""
 import json
 
+import rpc_common
 import vlib
 
 META = {
@@ -110,7 +111,11 @@ def run(ck):
 
     binp = ck.build_harness("c04")
     cases = []
-    if binp:
+    replayed = rpc_common.replay_case(ck)
+    if binp and replayed is not None:
+        cases = rpc_common.run_script(ck, binp, [replayed])
+        ck.log("replaying %s: %d case(s)" % (ck.replay, len(cases)))
+    elif binp:
         import os
         bound = os.environ.get("VERIF_C04_BOUND", "10")     # observation bound in seconds
         n = int(os.environ.get("VERIF_C04_N", n))           # (for demonstrations on a defective tree,
@@ -124,6 +129,7 @@ def run(ck):
                 cases.append(json.loads(line))
 
     faults, kinds = {}, {}
+    shrunk = set()
     for c in cases:
         if c["stream"] == "tl":
             key = json.dumps([c["steps"], [(x["k"], x["returned"], x["front"]) for x in c.get("callers", [])]])
@@ -137,11 +143,18 @@ def run(ck):
             faults[c["fault"]] = faults.get(c["fault"], 0) + 1
         ck.count(c["stream"], key=key, trivial=trivial)
         for k, why in impl_oracle(c):
+            small = c
+            if binp and replayed is None and c["stream"] == "tl" and k not in shrunk and len(shrunk) < 2 \
+                    and k != "hang":
+                shrunk.add(k)
+                # (every run on a defective tree costs an observation bound: small budget, short bound)
+                small = rpc_common.shrink(ck, binp, c, k, impl_oracle, extra=["-bound", "3"], budget=6)
             ck.violation("impl:%s:%s" % (c["stream"], k), why,
-                         {"case": c, "expected": "every operation returns, front connections are closed, the name "
-                                                 "is unregistered, serving terminates, no goroutine is left",
-                          "observed": {k2: c.get(k2) for k2 in ("callers", "reader_alive", "front_closed",
-                                                                "unregistered", "servefront_returned", "leak")}})
+                         {"case": small, "original_case": c if small is not c else None,
+                          "expected": "every operation returns, front connections are closed, the name "
+                                      "is unregistered, serving terminates, no goroutine is left",
+                          "observed": {k2: small.get(k2) for k2 in ("callers", "reader_alive", "front_closed",
+                                                                    "unregistered", "servefront_returned", "leak")}})
     ck.coverage["e2e_faults"] = faults
     ck.coverage["tl_caller_kinds"] = kinds
     ck.coverage["tl_callers_total"] = sum(len(c.get("callers", [])) for c in cases if c["stream"] == "tl")
